@@ -61,7 +61,13 @@ def replay(ctx, cfg, events, ops, expected, mres, props):
             return
         mstate = None
         if mres is not None:
-            mstatus, mstate, mchk = mres[k + 1]
+            mstatus, mstate, mchk, mwf = mres[k + 1]
+            # how much of what the implementation accepts lies inside the quantifier of Proofs.EditRep.history_consistent
+            ctx.count("calls_admissible_by_wf_op_b" if mwf else "calls_outside_wf_op_b")
+            if status == 0 and not mwf:
+                ctx.count("calls_ok_in_impl_but_outside_wf_op_b")
+                if len(ctx.notes) < 8:
+                    ctx.notes.append("call accepted by the implementation but not admissible for Model.EditOps.wf_op_b: %r" % (op,))
             if not mchk:
                 ctx.disagree("Spec.Tree.consistent_b (rep of the forest read off the child lists) holds after the call", case, None, 0)
                 return
